@@ -1,5 +1,6 @@
 import FlexiVerif.Model.Flw
 import FlexiVerif.Model.Names
+import FlexiVerif.Model.FlwTrace
 import Driver.Codec
 /-
   Driver for the `Flw` model (C01, C06, C07, C08, C09, C11, C14, C15, C16, C18, C19).
@@ -136,6 +137,40 @@ def step (s : St) (toks : List String) : St × String :=
     let (s', _) := apply s .shutdown 0 {}
     ({ s' with asyncDead := s.asyncDead || s.asyncMode }, "ok")
   | ["LDROPALL"] => let (s', _) := apply s .shutdown 0 {}; (s', "ok")
+  -- C11: the write is executed and the names of the points it passes are reported
+  | ["WP", b, now] =>
+    match hexToBytes b, now.toNat? with
+    | some b, some now =>
+      let names := (stepT s.st (.write b) now).2.map (·.name)
+      let (s', _) := apply s (.write b) now {}
+      (s', if names.isEmpty then "-" else ",".intercalate names)
+    | _, _ => (s, "bad-op")
+  | ["RP", now] =>
+    match now.toNat? with
+    | some now =>
+      let names := (stepT s.st .rotate now).2.map (·.name)
+      let (s', _) := apply s .rotate now {}
+      (s', if names.isEmpty then "-" else ",".intercalate names)
+    | none => (s, "bad-op")
+  -- C11: the process is killed at the occ-th hit of a point during this write / forced rotation
+  | ["CW", b, now, name, occ] =>
+    match hexToBytes b, now.toNat?, occ.toNat? with
+    | some b, some now, some occ =>
+      match crashDir s.st (.write b) now name occ with
+      | some p =>
+        let lt := match p.link with | none => "-" | some n => textToHex (render s.spec n)
+        ({ s with st := { s.st with dir := p.dir, link := p.link, act := none }, linkText := lt }, "killed")
+      | none => let (s', _) := apply s (.write b) now {}; (s', "nopoint")
+    | _, _, _ => (s, "bad-op")
+  | ["CROT", now, name, occ] =>
+    match now.toNat?, occ.toNat? with
+    | some now, some occ =>
+      match crashDir s.st .rotate now name occ with
+      | some p =>
+        let lt := match p.link with | none => "-" | some n => textToHex (render s.spec n)
+        ({ s with st := { s.st with dir := p.dir, link := p.link, act := none }, linkText := lt }, "killed")
+      | none => let (s', _) := apply s .rotate now {}; (s', "nopoint")
+    | _, _ => (s, "bad-op")
   | ["FLUSH"] => apply s .flush 0 {}
   | ["SHUT"] => apply s .shutdown 0 {}
   | "RESTART" :: rest =>
